@@ -165,12 +165,14 @@ PROPS = {
                                             'gc_histories/Gc::drop/ensures#stale_handles_do_not_affect_the_slots_new_tenant']}],
         'trusted_base': COMMON_TB,
         'assumptions': [
-            'only the mark-bit layer is under contract: Space::mark / sweep / pool_object / Gc clone+drop / Guard are NOT verified',
+            'proof covers the mark-bit layer, the dropped-heap handle layer, Guard::guard on a live heap, pool_object and the reuse path of alloc_internal; Space::mark / sweep / collect, Gc::clone/drop on a live heap and the fresh-chunk path of alloc_internal are NOT proved (bounded native stand-in gc_histories only)',
             'callers pass index_in_chunk = index % CHUNK_CAPACITY (coupling harness) and len = chunk.len() <= CHUNK_CAPACITY (Vec::with_capacity discipline in alloc_internal: unverified)',
             'exactness of the whole iter_unmarked enumeration: induction over the init + step contracts is machine-checked as a pure-spec Verus lemma (verus/induction_pre.rs); the transcription of the Kani postconditions into its hypothesis is the unchecked link',
         ],
         'explanation': 'Kani contracts (assume-pre / call real fn / assert-post) on ChunkBitmask::{get,set,clear,default,iter_unmarked} '
-                       'and UnmarkedIter::next, over all 2^256 masks and all indices; loop in next() unwound to its structural bound 5 (<7) with unwinding assertion.',
-        'not_carried': 'guard reachability, mark traversal, sweep/pool reuse, handle ref-counts, heap-drop safety',
+                       'and UnmarkedIter::next over all 2^256 masks and all indices (loop in next() unwound past its structural bound with the unwinding assertion on), '
+                       'on Gc::clone/drop and Guard::guard/drop for a dropped heap (box really freed), Guard::guard on a live heap, Space::pool_object and the reuse path of '
+                       'alloc_internal; a pure-spec Verus lemma closes the induction over the iterator step contract.',
+        'not_carried': 'proof of guard reachability through mark traversal and sweep (bounded native stand-in only); stale-handle reference counts after slot reuse (known finding)',
     },
 }
